@@ -97,6 +97,7 @@ def non_vacuity(ctx, c):
     keys += ["in/outsider/status=401", "in/at_from/signer_is_it=true/status=202", "in/at_until/signer_is_it=true/status=401",
              "in/at_from/signer_is_it=false/status=401", "in/at_until/signer_is_it=false/status=202", "kind/out", "kind/un", "kind/in"]
     keys += ["redir/code=%d/requests=2" % c for c in (301, 302, 303, 307, 308)]
+    keys += ["out_earlier_deliveries_same_deliverer"]   # judged deliveries preceded by earlier ones of the same deliverer / configuration
     es.need(ctx, c, keys, "C17")
 
 
